@@ -4,7 +4,8 @@ import numpy as np
 from vlib import caseio, gen
 
 ID = "C04"
-COQ_TARGETS = ["C04_Extract.vo", "C04_Proofs.vo", "C04_Transport.vo"]
+COQ_TARGETS = ["C04_Extract.vo", "C04_Proofs.vo", "UT_Transport.vo", "C03_Transport.vo", "C04_Transport.vo", "C05_Transport.vo"]
+EXTRA_PROPERTIES = ["Transport"]   # Properties_Transport.v: the unscented steps executed at the list instance represent the MathComp instance of the theorems
 COQ_PREFIXES = ["C04", "C03", "C01", "C02"]
 EXTRACTED = "C04_model"
 DRIVER = "drv_C04.ml"
@@ -15,7 +16,8 @@ REQUIRED_THEOREMS = ["C04_predict_additive", "C04_predict_augmented", "C04_predi
                      "C04_kf_predict_mean_is_C02", "C04_correct_additive", "C04_correct_augmented",
                      "C04_likelihood_additive", "C04_likelihood_augmented", "C04_innovation_cov_invertible",
                      "C04_skip_is_identity", "C04_no_measurement_is_identity", "C04_unusable_measurement_is_identity",
-                     "C04_transport_kf_predict"]
+                     "C04_transport_kf_predict",
+                     "Transport_oracle_counterpart_exists", "Transport_C03_weights", "Transport_C03_sigma_points", "Transport_C03_ut_generic", "Transport_C03_ut_state", "Transport_C03_ut_additive_state", "Transport_C03_ut_meas", "Transport_C03_ut_additive_meas", "Transport_model_functions_correspond", "Transport_C04_ukf_predict_additive", "Transport_C04_ukf_predict_generic", "Transport_C04_ukf_correct_additive", "Transport_C04_ukf_correct_generic", "Transport_C04_ukf_likelihood", "Transport_C04_Pyy_invertible_linear"]
 RULE = ("cases drawn from one seeded stream: kinds predict / correct, additive and generic (noise-input, augmented) constructors, "
         "n in 1..5, m in 1..3 (also m > n), noise inputs q in 1..3, components 1..3, P_i PSD incl. rank-deficient and zero (prediction and correction; SPD ones with chosen "
         "condition number <= 1e4), F random / singular / identity, H random / rank-deficient / zero row / selector / zero, B, D random incl. rank-deficient, "
@@ -25,7 +27,7 @@ RULE = ("cases drawn from one seeded stream: kinds predict / correct, additive a
 TRUSTED_BASE = ["Coq 8.16.1 kernel (coqc); no axioms (Print Assumptions: closed under the global context)",
                 "MathComp 1.15 matrix theory",
                 "extraction (ExtrOcamlBasic only) and ocaml/float_ops.ml, ocaml/drv_C04.ml (incl. its Jacobi eigen-iteration used as square-root oracle), ocaml/caseio.ml",
-                "ListOps list instance of MatOps (structural operations and Gauss-Jordan inverse/determinant, unproved)",
+                "ListOps list instance of MatOps: proved to compute the MathComp operations on well-formed inputs over any realFieldType, incl. the Gauss-Jordan inverse/determinant on invertible inputs (ListOpsCorrect.v, ListGauss.v); the unscented steps executed at the list instance are proved to represent the MathComp instance the theorems are about (UT_Transport.v, C03_/C04_/C05_Transport.v; the theorems of Properties_Transport.v are obligations of this check), under per-call premises: the list-level and the matrix-level square-root / eigenvector oracles correspond on the matrices actually passed, the model functions map corresponding columns to corresponding columns, and the inverted matrices (the predicted measurement covariances Pyy_i) are invertible at the MathComp instance (derived for linear measurement models with SPD noise: Transport_C04_Pyy_invertible_linear); what remains between executed model and theorem model is IEEE rounding and the oracle correspondence",
                 "cpp/h_C04.cpp harness and its linear models; comparison tolerances rtol 1e-7 * cond + 1e-12 * max|weight| (UKF vs KF), 1e-9 * cond + 1e-12 * max|weight| (implementation vs model)",
                 "correspondence is sampled: agreement is established on the generated cases only",
                 "IEEE rounding is not modelled (theorems over an exact real field)"]
